@@ -169,7 +169,12 @@ func newPackage(program *loader.Program, pkgInfo *loader.PackageInfo, plugins []
 				}
 				changed = true
 				log.Printf("changing function call name from %s to %s", call.Name, name)
-				call.Expr.Fun = ast.NewIdent(name)
+				if ident, ok := call.Expr.Fun.(*ast.Ident); ok {
+					// renamed where it stands: the comments and line breaks around the name stay where they are
+					ident.Name = name
+				} else {
+					call.Expr.Fun = ast.NewIdent(name)
+				}
 			}
 		}
 
